@@ -1,3 +1,4 @@
+pub mod c03;
 pub mod c05;
 pub mod conn;
 pub mod smoke;
@@ -35,6 +36,7 @@ pub fn dispatch(args: &[String]) -> i32 {
         "smoke" => smoke::main(&a),
         "conn" => conn::main(&a),
         "c05" => c05::main(&a),
+        "c03" => c03::main(&a),
         "table-tiebreak" => tables::tiebreak(&a),
         other => {
             eprintln!("unknown scenario {other}");
